@@ -172,7 +172,7 @@ class SqlParseLineageAnalyzer(LineageAnalyzer):
                         holder.add_column_lineage(src_col, tgt_col)
             elif insert_flag:
                 if holder.write and isinstance(token, Parenthesis):
-                    t = token.tokens[1]
+                    t = token.tokens[1] if len(token.tokens) > 1 else None
                     identifiers = []
                     if isinstance(t, Identifier):
                         identifiers.append(t)
@@ -193,7 +193,7 @@ class SqlParseLineageAnalyzer(LineageAnalyzer):
                 elif insert_columns and isinstance(token, Values):
                     for sub_token in token.tokens:
                         if isinstance(sub_token, Parenthesis):
-                            t = sub_token.tokens[1]
+                            t = sub_token.tokens[1] if len(sub_token.tokens) > 1 else None
                             identifiers = []
                             if isinstance(t, Identifier):
                                 identifiers.append(t)
